@@ -181,8 +181,12 @@ def synth_library(rng, idx):
         tm = ["typemap:"]
         for n in names:
             same = rng.random() < 0.7
-            tm += ["- type: %s" % n, "  fields:", "    base: struct", "    c_header: %s.h" % n.lower(),
-                   "    cxx_header: %s" % (n.lower() + (".h" if same else ".hpp")), "    c_type: %s" % n,
+            # a header field is a YAML list or one blank-delimited string naming several headers
+            extra = rng.random() < 0.4
+            ch = "%s.h" % n.lower() + (" %s_io.h %s_aux.h" % (n.lower(), n.lower()) if extra else "")
+            xh = n.lower() + (".h" if same else ".hpp") + (" %s_io.h %s_aux.h" % (n.lower(), n.lower()) if extra else "")
+            tm += ["- type: %s" % n, "  fields:", "    base: struct", "    c_header: %s" % ch,
+                   "    cxx_header: %s" % xh, "    c_type: %s" % n,
                    "    f_derived_type: %s" % n.lower(), "    f_module_name: %s_mod" % n.lower()]
         at = lines.index("declarations:")
         lines[at:at] = tm
